@@ -43,14 +43,26 @@ var c06SliceHdr = []byte{0x88, 0x84, 0x03}
 
 const c06SliceHdrSize = 5
 
+// c06SliceHdr2 is the same header with idr_pic_id 7 and disable_deblocking_filter_idc 2 (deblocking
+// on, not across slice boundaries; alpha and beta offsets 0 follow): 34 bits, 6 bytes with the
+// NAL header byte. The two offset bits are the first bits of the last header byte.
+//   1 0001000 1 0000 0001000 000000 00 1 011 1 1
+var c06SliceHdr2 = []byte{0x88, 0x80, 0x80, 0x0b}
+
+const c06SliceHdr2Size = 6
+
 // c06VideoNaluCbcs is c06Nalu with that slice header in front of the symbolic slice data.
-func c06VideoNaluCbcs(n int) []byte {
+func c06VideoNaluCbcs(n int, second bool) []byte {
 	out := c06Nalu(n, 0x65)
-	if n < c06SliceHdrSize {
+	hdr, size := c06SliceHdr, c06SliceHdrSize
+	if second {
+		hdr, size = c06SliceHdr2, c06SliceHdr2Size
+	}
+	if n < size {
 		panic("harness: cbcs video NAL unit shorter than its slice header")
 	}
-	copy(out[5:8], c06SliceHdr)
-	out[8] = 0xc0 | out[8]&0x3f // last two header bits, then slice data
+	copy(out[5:5+len(hdr)], hdr)
+	out[5+len(hdr)] = 0xc0 | out[5+len(hdr)]&0x3f // last two header bits, then slice data
 	return out
 }
 
@@ -128,12 +140,12 @@ func VerifC06(codec string, scheme string, ivLen int, sizes string, extraBox boo
 					}
 				}
 				if codec == "avc" && scheme == "cbcs" && k == 0 {
-					data = append(data, c06VideoNaluCbcs(n)...)
+					data = append(data, c06VideoNaluCbcs(n, false)...)
 					continue
 				}
 				if codec == "avc" && scheme == "cbcs" && k == 2 {
-					typ = 0x65 // a second slice of the same picture
-					data = append(data, c06VideoNaluCbcs(n)...)
+					// a second slice of the same picture, with the longer header
+					data = append(data, c06VideoNaluCbcs(n, true)...)
 					continue
 				}
 				data = append(data, c06Nalu(n, typ)...)
@@ -151,6 +163,9 @@ func VerifC06(codec string, scheme string, ivLen int, sizes string, extraBox boo
 		// a vendor uuid box (tfxd) and an unknown box inside the traf
 		_ = frag.Moof.Traf.AddChild(&UUIDBox{uuid: uuidTfxd, Tfxd: &TfxdData{Version: 1, FragmentAbsoluteTime: 7, FragmentAbsoluteDuration: 9}})
 		_ = frag.Moof.Traf.AddChild(CreateUnknownBox("zzzz", 12, []byte{1, 2, 3, 4}))
+		// a sample group that is not protection signalling (audio pre-roll)
+		_ = frag.Moof.Traf.AddChild(&SbgpBox{Version: 0, GroupingType: "roll", SampleCounts: []uint32{uint32(len(clear))}, GroupDescriptionIndices: []uint32{65537}})
+		_ = frag.Moof.Traf.AddChild(&SgpdBox{Version: 1, GroupingType: "roll", DefaultLength: 2, SampleGroupEntries: []SampleGroupEntry{&RollSampleGroupEntry{RollDistance: -1}}})
 		// and boxes in the moof itself, one before and one after the traf
 		var ch []Box
 		for _, c := range frag.Moof.Children {
@@ -306,17 +321,25 @@ func VerifC06(codec string, scheme string, ivLen int, sizes string, extraBox boo
 			}
 			want := append([]byte{}, c...)
 			q := 0
+			nVideo := 0
 			for q+4 <= len(c) {
 				n := int(be32(c[q : q+4]))
 				isVideo := c[q+4]&0x1f <= 5
+				hdrSize := c06SliceHdrSize
+				if isVideo {
+					nVideo++
+					if nVideo == 2 {
+						hdrSize = c06SliceHdr2Size
+					}
+				}
 				for k := 0; k < 4+n; k++ {
-					wantProt := isVideo && k >= 4+c06SliceHdrSize
+					wantProt := isVideo && k >= 4+hdrSize
 					vfy.Assert(prot[q+k] == wantProt, "cbcs: protected range starts at the end of the slice header and runs to the end of the NAL unit")
 				}
-				if isVideo && n > c06SliceHdrSize {
-					vfy.Assert(starts[q+4+c06SliceHdrSize], "cbcs: every video NAL unit has its own protected range")
-					base := q + 4 + c06SliceHdrSize
-					plen := n - c06SliceHdrSize
+				if isVideo && n > hdrSize {
+					vfy.Assert(starts[q+4+hdrSize], "cbcs: every video NAL unit has its own protected range")
+					base := q + 4 + hdrSize
+					plen := n - hdrSize
 					prev := append([]byte{}, iv16...)
 					for blk := 0; blk*16+16 <= plen; blk++ {
 						if blk%10 != 0 {
@@ -465,6 +488,18 @@ func VerifC06(codec string, scheme string, ivLen int, sizes string, extraBox boo
 			}
 		}
 		vfy.Assert(nUUID == 1 && nUnk == 1, "vendor uuid box and unknown box still present")
+		nSbgp, nSgpd := 0, 0
+		for _, c := range traf.Children {
+			if sb, ok := c.(*SbgpBox); ok && sb.GroupingType == "roll" {
+				nSbgp++
+				vfy.Assert(len(sb.SampleCounts) == 1 && int(sb.SampleCounts[0]) == len(clear) && sb.GroupDescriptionIndices[0] == 65537, "roll sample-to-group box unchanged")
+			}
+			if sg, ok := c.(*SgpdBox); ok && sg.GroupingType == "roll" {
+				nSgpd++
+				vfy.Assert(len(sg.SampleGroupEntries) == 1, "roll sample group description unchanged")
+			}
+		}
+		vfy.Assert(nSbgp == 1 && nSgpd == 1, "sample group boxes that are not protection signalling (roll) still present")
 		nBefore, nAfter, seenTraf := 0, 0, false
 		for _, c := range fr.Moof.Children {
 			switch c.Type() {
